@@ -46,19 +46,19 @@ def payloads(rng, tier):
         bits = gen.message(rng, mlen if rng.random() < 0.2 else 64)
         table = gen.random_table(rng, len(rows)) if rng.random() < 0.5 else None
         yield "roundtrip", {"k": k, "rows": rows, "v0": v0, "bits": bits, "fast": fast, "table": table,
-                            "vt": rng.choice([0, 0, 1, 2, 5, 33, 40]), "kind": kind}
+                            "vt": rng.choice([0, 0, 1, 2, 5, 33, 40]), "kind": kind, "reuse": rng.random() < 0.5}
 
 
 def build(stream, p):
     rows, v0, bits, fast, table, vt = p["rows"], p["v0"], p["bits"], p["fast"], p["table"], p["vt"]
     L = len(bits)
     fuel = L * len(rows) + len(rows) + 1
-    arr = gen.acc_array(rows)
     tab = None if table is None else np.array(table, dtype=int)
     domain = gen.wellformed_from(rows, v0) and not (fast and cc.has_deg3(rows))
 
     def run():
-        a = gen.counting(rows, 2 * fuel + 4)
+        arr = gen.acc_array(rows, reuse=p.get("reuse", False))
+        a = arr if p.get("reuse", False) else gen.counting(rows, 2 * fuel + 4)
         e = dsw.encode(np.array(bits, dtype=int), a, v0, is_faster=fast, vt_length=vt, shuffles=tab)
         s, chk = (e if vt > 0 else (e, None))
         d = dsw.decode(s, L, arr, v0, is_faster=fast, vt_check=chk, shuffles=tab)
